@@ -1,0 +1,53 @@
+//go:build verif
+
+package sourcerunner
+
+import (
+	"context"
+
+	"reduction.dev/reduction-protocol/handlerpb"
+	"reduction.dev/reduction/batching"
+	"reduction.dev/reduction/proto"
+	"reduction.dev/reduction/proto/workerpb"
+	"reduction.dev/reduction/workers/wmark"
+)
+
+// Accessors for the verification harness (/verif, property C11). Compiled only
+// with -tags verif.
+
+// VerifPipe is a source runner reduced to its output stage: the real
+// sendOperatorEvent (watermark advance, stamping, routing, broadcast) over the
+// real operator cluster, fed by a harness-scripted key-event result channel.
+type VerifPipe struct {
+	r      *SourceRunner
+	Keyed  chan []*handlerpb.KeyedEvent // async KeyEventBatch results, consumed per placeholder
+	cancel context.CancelFunc
+}
+
+func VerifNewPipe(keyGroupCount int, operators []proto.Operator, batchMaxSize int, errChan chan error) *VerifPipe {
+	ctx, cancel := context.WithCancel(context.Background())
+	out := make(chan []*handlerpb.KeyedEvent, 1)
+	params := batching.EventBatcherParams{MaxSize: batchMaxSize}
+	r := &SourceRunner{
+		watermarker:     &wmark.Watermarker{},
+		keyEventChannel: &batching.ReorderFetcher[[]byte, []*handlerpb.KeyedEvent]{Output: out},
+		errChan:         errChan,
+		batchingParams:  params,
+		ctx:             ctx,
+	}
+	r.operators = newOperatorCluster(ctx, &newClusterParams{
+		keyGroupCount:  keyGroupCount,
+		operators:      operators,
+		batchingParams: params,
+		errChan:        errChan,
+	})
+	return &VerifPipe{r: r, Keyed: out, cancel: cancel}
+}
+
+// Send runs the real sendOperatorEvent on one output-stream event.
+func (p *VerifPipe) Send(e *workerpb.Event) error { return p.r.sendOperatorEvent(e) }
+
+// Flush pushes partially filled operator batches out.
+func (p *VerifPipe) Flush() { p.r.operators.flush() }
+
+func (p *VerifPipe) Close() { p.cancel() }
